@@ -402,6 +402,77 @@ def arrivals_and_close_in_one_pause(kind, action):
         P.sleep = old_sleep
 
 
+def closed_port_kinds_fail():
+    """After close, every kind of port the library has - device double, EchoPort, IOPort, MultiPort, SocketPort (closed by the
+    program, and closed by itself when the peer hung up), PortServer - refuses send() with ValueError, answers poll() without
+    raising, refuses a blocking receive() with ValueError, reports closed, and can still be printed."""
+    import socket
+    import mido
+    import mido.ports as P
+    from mido.sockets import PortServer, SocketPort
+    Dev = portsim.make_dev_class()
+    made = []
+
+    def sock_port(self_close):
+        a, b = socket.socketpair()
+        p = SocketPort('pair', 1, conn=a)
+        made.extend([a, b])
+        if self_close:
+            b.close()
+            for _ in p.iter_pending():
+                pass
+        return p
+    kinds = [('device port', lambda: Dev('d', autoreset=False, script=[], budget=None)), ('EchoPort', P.EchoPort),
+             ('IOPort', lambda: P.IOPort(P.EchoPort(), P.EchoPort())), ('MultiPort', lambda: P.MultiPort([P.EchoPort()])),
+             ('SocketPort', lambda: sock_port(False)), ('SocketPort closed by the peer', lambda: sock_port(True)),
+             ('PortServer', lambda: PortServer('127.0.0.1', 0))]
+    try:
+        with portsim.patched_sleep(limit=50):
+            for name, mk in kinds:
+                try:
+                    p = mk()
+                except Exception as e:      # noqa: BLE001 - no network namespace etc.: not judged
+                    if name == 'PortServer':
+                        continue
+                    return f'creating a {name} raised {type(e).__name__}: {e}'
+                try:
+                    p.close()
+                    p.close()
+                    if not p.closed:
+                        return f'a {name} does not report closed after close()'
+                    try:
+                        repr(p), str(p)
+                    except Exception as e:      # noqa: BLE001
+                        return f'repr() of a closed {name} raised {type(e).__name__}: {e}'
+                    for what, call in (('send', lambda: p.send(mido.Message('note_on'))), ('receive', lambda: p.receive())):
+                        try:
+                            call()
+                            return f'{what}() on a closed {name} did not raise'
+                        except ValueError:
+                            pass
+                        except portsim.Hang:
+                            return f'{what}() on a closed {name} blocked'
+                        except Exception as e:      # noqa: BLE001
+                            return f'{what}() on a closed {name} raised {type(e).__name__} ({e}) instead of ValueError'
+                    try:
+                        if p.poll() is not None:
+                            return f'poll() on a closed, empty {name} returned a message'
+                    except Exception as e:      # noqa: BLE001
+                        return f'poll() on a closed {name} raised {type(e).__name__}: {e}'
+                finally:
+                    try:
+                        p.close()
+                    except Exception:      # noqa: BLE001
+                        pass
+    finally:
+        for s_ in made:
+            try:
+                s_.close()
+            except Exception:      # noqa: BLE001
+                pass
+    return None
+
+
 def ioport_wrapping(arrivals, pending_before, close_how):
     """An IOPort wrapped around an input port (with nothing / something pending at that moment) and an output port.  One
     device read takes in several messages, then the IOPort (or the input port) is closed: every message taken in is handed
@@ -605,6 +676,11 @@ def run(ck):
             f = arrivals_and_close_in_one_pause(kind, action)
             if f:
                 ck.oracle_fail({'one_pause': [kind, action]}, f)
+    ck.evaluations += 1
+    ck.count('closed_port_kinds')
+    f = closed_port_kinds_fail()
+    if f:
+        ck.oracle_fail({'closed_port_kinds': True}, f)
     for arrivals in ([1, 2, 3], [7], [4, 5]):
         for pending_before in (0, 1):
             for close_how in ('io',):
@@ -638,6 +714,8 @@ def run(ck):
 
 
 def oracle(case):
+    if 'closed_port_kinds' in case:
+        return closed_port_kinds_fail()
     if 'multi_big_child' in case:
         return multi_big_child(case['multi_big_child'])
     if 'reset_independence' in case:
